@@ -219,6 +219,7 @@ def run(rep, ctx):
         pairs.append((m, rng.choice(mal), True))
         pairs.append((rng.choice([d[0] for d in docs]), m, True))
         pairs.append((m, m, True))
+    pairs += [(a, b, True) for a, b in rc.real_pages()[:6]]      # archived versions of real pages from the repository's fixtures
     rediffed = [m for m in mal if 'wm-diff-' in m]
     for f in FRAMESETS:
         pairs += [(f, f, False), (f, '<p>x</p>', False), ('<p>x</p>', f, False)]
